@@ -9,6 +9,7 @@ package main
 
 import (
 	"fmt"
+	"go/token"
 	"go/types"
 	"sort"
 	"strings"
@@ -445,6 +446,34 @@ func (vc *VC) loopHeader(fr *frame, h *ssa.BasicBlock, st *state, ord int) {
 		n := vc.freshConst(fr.prefix+phi.Name(), vc.S.sortOf(t))
 		fr.vals[phi] = vc.mkVal(n, t)
 		vc.assumeInv(st, n, t)
+		if cphi, off, ok := loopCounter(h); ok && cphi == phi && off == 0 {
+			// counter of `for i := 0; i < bound; i++`: never negative; not above a loop-invariant
+			// non-negative bound (a length) it is compared with in the header
+			vc.assume(st.reach, "(>= "+n+" 0)")
+			for _, ins2 := range h.Instrs {
+				cmp, ok := ins2.(*ssa.BinOp)
+				if !ok || cmp.X != ssa.Value(phi) || cmp.Op != token.LSS {
+					continue
+				}
+				if call, ok := cmp.Y.(*ssa.Call); ok {
+					if bi, ok := call.Call.Value.(*ssa.Builtin); ok && bi.Name() == "len" && len(call.Call.Args) == 1 {
+						arg := call.Call.Args[0]
+						if ai, isIns := arg.(ssa.Instruction); isIns && loopBlocks(h)[ai.Block()] {
+							continue
+						}
+						av := vc.get(fr, arg)
+						switch arg.Type().Underlying().(type) {
+						case *types.Slice:
+							if !isByteSlice(arg.Type()) {
+								vc.assume(st.reach, "(<= "+n+" (slen "+av.T+"))")
+							}
+						case *types.Basic:
+							vc.assume(st.reach, "(<= "+n+" (str.len "+av.T+"))")
+						}
+					}
+				}
+			}
+		}
 		if phi.Comment == "rangeindex" {
 			// built-in invariant of index loops (starts at -1, incremented by one)
 			vc.assume(st.reach, "(>= "+n+" (- 1))")
@@ -486,39 +515,50 @@ func (vc *VC) loopHeader(fr *frame, h *ssa.BasicBlock, st *state, ord int) {
 	// current index of an index loop
 	if fr.depth == 0 && vc.contract != nil && len(vc.contract.Ghosts) > 0 {
 		for _, phi := range li.phis {
-			if phi.Comment != "rangeindex" {
+			cphi, off, ok := loopCounter(h)
+			if !ok || cphi != phi {
 				continue
 			}
-			cur := "(+ " + fr.vals[phi].T + " 1)"
-			env := vc.specEnv(fr, st, h)
-			changed := false
+			cur := completedIters(fr.vals[phi].T, off)
+			var intGhosts []string
 			for _, g := range vc.contract.Ghosts {
 				if gv, ok := vc.ghosts[g.Name]; ok && vc.S.sortOf(gv.Typ) == "Int" {
-					env.vars[g.Name] = Val{T: cur, Typ: gv.Typ}
-					changed = true
+					intGhosts = append(intGhosts, g.Name)
 				}
 			}
-			if !changed {
+			if len(intGhosts) == 0 {
 				continue
 			}
-			env.st = &state{reach: st.reach, heap: vc.entryHeap}
-			env.noLocals = true
-			for _, r := range vc.contract.Requires {
-				if t, err := env.evalBool(r.Expr); err == nil {
-					vc.assume(st.reach, t)
+			// instances: all integer ghosts at the current index, and each one alone (the others stay
+			// arbitrary)
+			subsets := [][]string{intGhosts}
+			if len(intGhosts) > 1 {
+				for _, g := range intGhosts {
+					subsets = append(subsets, []string{g})
 				}
 			}
-			// the loop's invariants hold for every value of the ghosts (they are proved for arbitrary
-			// ones), in particular at the current index
-			ienv := vc.specEnv(fr, st, h)
-			for _, g := range vc.contract.Ghosts {
-				if gv, ok := vc.ghosts[g.Name]; ok && vc.S.sortOf(gv.Typ) == "Int" {
-					ienv.vars[g.Name] = Val{T: cur, Typ: gv.Typ}
+			for _, sub := range subsets {
+				env := vc.specEnv(fr, st, h)
+				for _, g := range sub {
+					env.vars[g] = Val{T: cur, Typ: vc.ghosts[g].Typ}
 				}
-			}
-			for _, c := range invs {
-				if t, err := ienv.evalBool(c.Expr); err == nil {
-					vc.assume(st.reach, t)
+				env.st = &state{reach: st.reach, heap: vc.entryHeap}
+				env.noLocals = true
+				for _, r := range vc.contract.Requires {
+					if t, err := env.evalBool(r.Expr); err == nil {
+						vc.assume(st.reach, t)
+					}
+				}
+				// the loop's invariants hold for every value of the ghosts (they are proved for arbitrary
+				// ones), in particular at the current index
+				ienv := vc.specEnv(fr, st, h)
+				for _, g := range sub {
+					ienv.vars[g] = Val{T: cur, Typ: vc.ghosts[g].Typ}
+				}
+				for _, c := range invs {
+					if t, err := ienv.evalBool(c.Expr); err == nil {
+						vc.assume(st.reach, t)
+					}
 				}
 			}
 		}
@@ -527,6 +567,19 @@ func (vc *VC) loopHeader(fr *frame, h *ssa.BasicBlock, st *state, ord int) {
 	if fr.depth == 0 {
 		for _, g := range vc.frameGoals(fr, vc.contract, st) {
 			vc.assume(st.reach, g.goal)
+			// the frame invariant is proved at an arbitrary reference: use it at the cells the
+			// parameters point to as well
+			sk := vc.frameSkolem(g.key)
+			for _, p := range fr.fn.Params {
+				pt, ok := p.Type().Underlying().(*types.Pointer)
+				if !ok || vc.cellKey(pt.Elem()) != g.key {
+					continue
+				}
+				if pv, ok := vc.params[p.Name()]; ok && pv.T != "" {
+					vc.instFrames(g.key, pv.T)
+					vc.assume(st.reach, strings.ReplaceAll(g.goal, sk, pv.T))
+				}
+			}
 		}
 	}
 	for _, c := range invs {
@@ -599,7 +652,6 @@ func (vc *VC) loopInvariants(fr *frame, ord int) []*Clause {
 	return r
 }
 
-
 // modifiesKeys: heap keys of the locations a contract's modifies clause denotes.
 func (vc *VC) modifiesKeys(callee *ssa.Function, c *Contract) ([]string, bool) {
 	nl, nd := len(vc.lines), len(vc.errs)
@@ -634,4 +686,58 @@ func (vc *VC) modifiesKeys(callee *ssa.Function, c *Contract) ([]string, bool) {
 	}
 	sort.Strings(out)
 	return out, ok
+}
+
+// loopCounter finds the counter of an index loop with header h and returns it with the offset to add
+// to obtain the number of completed iterations: the index phi of a `range` loop over a slice, array,
+// string or integer (starts at -1, incremented in the header: completed = phi + 1), or the counter
+// of `for i := 0; ...; i++` (a header phi whose entry value is the constant 0 and whose value on
+// every back edge is phi + 1: completed = phi).
+func loopCounter(h *ssa.BasicBlock) (*ssa.Phi, int, bool) {
+	for _, ins := range h.Instrs {
+		if phi, ok := ins.(*ssa.Phi); ok && phi.Comment == "rangeindex" {
+			return phi, 1, true
+		}
+	}
+	for _, ins := range h.Instrs {
+		phi, ok := ins.(*ssa.Phi)
+		if !ok {
+			break
+		}
+		if b, isInt := phi.Type().Underlying().(*types.Basic); !isInt || b.Info()&types.IsInteger == 0 {
+			continue
+		}
+		good, entries, backs := true, 0, 0
+		for i, e := range phi.Edges {
+			if isBackEdge(h.Preds[i], h) {
+				backs++
+				inc, ok := e.(*ssa.BinOp)
+				if !ok || inc.Op != token.ADD || inc.X != ssa.Value(phi) {
+					good = false
+					break
+				}
+				c, ok := inc.Y.(*ssa.Const)
+				if !ok || c.Value == nil || c.Int64() != 1 {
+					good = false
+				}
+			} else {
+				entries++
+				c, ok := e.(*ssa.Const)
+				if !ok || c.Value == nil || c.Int64() != 0 {
+					good = false
+				}
+			}
+		}
+		if good && entries >= 1 && backs >= 1 {
+			return phi, 0, true
+		}
+	}
+	return nil, 0, false
+}
+
+func completedIters(phiTerm string, off int) string {
+	if off == 0 {
+		return phiTerm
+	}
+	return fmt.Sprintf("(+ %s %d)", phiTerm, off)
 }
